@@ -55,6 +55,7 @@ type c19Machine struct {
 	nDup       int
 	nNoTx      int
 	nLarge     int
+	nBatch     int
 	nOddQuery  int
 	nAged      int
 	queryPanic string
@@ -81,6 +82,11 @@ func (m *c19Machine) Next(t *rapid.T) c19Op {
 	case k < 6:
 		op := c19Op{Kind: "create", Who: rapid.IntRange(0, 2).Draw(t, "who"), Copies: rapid.SampledFrom([]int{1, 1, 2, 3}).Draw(t, "copies"),
 			NoTx: rapid.IntRange(0, 3).Draw(t, "notx") == 0}
+		if m.nBatch == 0 && rapid.IntRange(0, 1<<20).Draw(t, "batch")%25 == 24 {
+			// one transaction carrying a few hundred identical messages (a notary's batch): the per-record counter is the
+			// only thing that tells the records apart, over more than one byte of its range
+			op.Copies = rapid.IntRange(257, 300).Draw(t, "batchsize")
+		}
 		n := rapid.IntRange(1, 3).Draw(t, "n")
 		large := false
 		for i := 0; i < n; i++ {
@@ -137,6 +143,9 @@ func (m *c19Machine) Apply(op c19Op) error {
 		}
 		if op.Large {
 			m.nLarge++
+		}
+		if op.Copies > 256 && valid {
+			m.nBatch++
 		}
 		var txBytes []byte // nil = unique bytes per transaction
 		if op.NoTx {
@@ -293,6 +302,9 @@ func (m *c19Machine) Classify() (bool, []string) {
 	if m.nLarge >= 2 {
 		cl = append(cl, "large-records>=2")
 	}
+	if m.nBatch > 0 {
+		cl = append(cl, "one-transaction-with->256-identical-records")
+	}
 	if m.nNoTx >= 2 {
 		cl = append(cl, "same-tx-hash-in-different-txs")
 	}
@@ -305,7 +317,7 @@ func (m *c19Machine) Classify() (bool, []string) {
 	return m.nDup > 0, cl
 }
 
-const c19Rule = "rapid state machine: create (1-3 contents from a small alphabet, 1-3 identical messages per tx, 3 creators) / block (all-module blockers) / other-module message / read with an id nobody was given (empty, one byte, odd length, not hex, shortened or lengthened real id); non-trivial = history with >=2 byte-identical records (same creator and contents); distinct by SHA-256 of the op list"
+const c19Rule = "rapid state machine: create (1-3 contents from a small alphabet, 1-3 identical messages per tx - rarely a batch of 257-300 -, 3 creators) / block (all-module blockers) / other-module message / read with an id nobody was given (empty, one byte, odd length, not hex, shortened or lengthened real id); non-trivial = history with >=2 byte-identical records (same creator and contents); distinct by SHA-256 of the op list"
 
 func init() { pbt.RegisterMachine("c19", newC19) }
 
